@@ -41,6 +41,8 @@ import Driver.PyUtil
 import Driver.Registry
 import Driver.BcryptFinalize
 import Driver.OsCryptBackend
+import Driver.ContextKwds
+import Driver.PwdGen
 /-
 Line protocol driver: `<suite> <op> <args…>` per input line, one result line out.
 Compiled (`lean_exe modeldrv`); nothing imported here touches Mathlib.
@@ -90,6 +92,8 @@ def dispatch (line : String) : String :=
   | "preg" :: rest => Driver.Registry.handle rest
   | "bfin" :: rest => Driver.BcryptFinalize.handle rest
   | "ocp" :: rest => Driver.OsCryptBackend.handle rest
+  | "ckw" :: rest => Driver.ContextKwds.handle rest
+  | "pgen" :: rest => Driver.PwdGen.handle rest
   | _ => Driver.bad
 
 partial def loop (h : IO.FS.Stream) (out : IO.FS.Stream) : IO Unit := do
